@@ -30,7 +30,9 @@ use crate::common::{Out, Rng};
 use crate::with_ctx;
 
 #[path = "c20p.rs"]
-mod c20p;
+pub(crate) mod c20p;
+#[path = "c20d.rs"]
+mod c20d;
 
 const UNKNOWN: u32 = 9999;
 
@@ -125,12 +127,12 @@ fn from_ms<Pk: KeyId, Ctx: ScriptContext>(ms: &Miniscript<Pk, Ctx>) -> Node {
 /* ------------------------------------------------------------ the named maps */
 
 #[derive(Clone, Copy, Debug, PartialEq, Eq)]
-enum MapK { Id, Ren, Ren2, Comp, Unc, Xonly, RenInv }
+enum MapK { Id, Ren, Ren2, Comp, Unc, Xonly, RenInv, Collapse }
 impl MapK {
     fn name(self) -> &'static str {
         match self {
             MapK::Id => "id", MapK::Ren => "ren", MapK::Ren2 => "ren2", MapK::Comp => "comp",
-            MapK::Unc => "unc", MapK::Xonly => "xonly", MapK::RenInv => "reninv",
+            MapK::Unc => "unc", MapK::Xonly => "xonly", MapK::RenInv => "reninv", MapK::Collapse => "kcollapse",
         }
     }
     fn key(self, k: u32) -> u32 {
@@ -141,6 +143,7 @@ impl MapK {
             MapK::Comp => k % 100,
             MapK::Unc => k % 100 + 100,
             MapK::Xonly => k % 100 + 200,
+            MapK::Collapse => k / 100 * 100 + k % 2,
         }
     }
     fn hash(self, h: u32) -> u32 {
@@ -148,6 +151,7 @@ impl MapK {
             MapK::Ren => (h + 1) % 4,
             MapK::Ren2 => (h + 2) % 4,
             MapK::RenInv => (h + 3) % 4,
+            MapK::Collapse => h % 2,
             _ => h,
         }
     }
@@ -757,6 +761,7 @@ pub fn run(out: &mut Out, thorough: bool, seed: u64) {
         }
     }
     desc_checks(out);
+    c20d::run(out, thorough, &mut rng);
     c20p::run(out, thorough, &mut rng);
     let _ = std::panic::take_hook();
     out.note("domain", format!(
